@@ -28,6 +28,8 @@ CONSTANTS Alphabet,   \* symbol codes a typed text is built from
           MaxLen,     \* longest typed text
           Seeds,      \* typed texts the machine starts from (<<>>: exhaustive)
           Pos,        \* positions and counts n, k range over this set (-1..10)
+          Tenths,     \* every position / count n >= 0 is also passed as n + f/10, f in
+                      \* this subset of 1..9 (a count computed as LEN(s)/2 has a fraction)
           NewTexts,   \* replacement / second-operand texts t
           FindLen,    \* search texts: every text over Alphabet up to this length
           Nums,       \* set of <<k, j>>: the number k / 10^j  (j in 0..8)
@@ -104,6 +106,17 @@ Replace(x, n, k, t) ==
   IF n < 1 \/ k < 0 THEN ValueErr
   ELSE T(Slice(x, 1, n - 1) \o t \o Slice(x, n + k, Len(x)))
 
+(* A position or count that has a fraction is truncated: LEFT(s, 1.9) is    *)
+(* LEFT(s, 1) and RIGHT(s, 0.5) is RIGHT(s, 0) = "".  Such an argument is   *)
+(* written in tenths here: q = 10 * n + f stands for n + f/10 (n >= 0).  A  *)
+(* negative fraction (-0.5) is not generated: the statement only fixes      *)
+(* "negative counts", and whether -0.5 is one is not clear.                 *)
+Whole(q) == q \div 10
+LeftQ(x, q)  == Left(x, Whole(q))
+RightQ(x, q) == Right(x, Whole(q))
+MidQ(x, p, c) == Mid(x, Whole(p), Whole(c))
+ReplaceQ(x, n, k, t) == Replace(x, Whole(n), Whole(k), t)
+
 \* f occurs in x at position p (the empty text occurs at 1..LEN+1)
 MatchAt(f, x, p) == /\ p >= 1 /\ p + Len(f) - 1 <= Len(x)
                     /\ \A i \in 1..Len(f) : x[p + i - 1] = f[i]
@@ -116,13 +129,14 @@ SetMin(S) == CHOOSE m \in S : \A o \in S : m <= o
 \*    (MID(x, LEN+1, 0) = "") gives LEN+1, Excel's documentation gives #VALUE!
 \*    (start beyond the text): both allowed -- except for start = 1 (the
 \*    default), which is a position of every text: FIND("", "") = 1.
-\* FIND(f, x) is FIND(f, x, 1).
+\* FIND(f, x) is FIND(f, x, 1); a start with a fraction is truncated.
 FindAllowed(f, x, start) ==
   IF start < 1 THEN {Unjudged}
   ELSE LET P == {p \in Matches(f, x) : p >= start}
        IN  IF P = {} THEN {ValueErr}
            ELSE IF f = <<>> /\ start = Len(x) + 1 /\ start > 1 THEN {N(start), ValueErr}
            ELSE {N(SetMin(P))}
+FindAllowedQ(f, x, q) == FindAllowed(f, x, Whole(q))
 
 \* SUBSTITUTE: left-to-right scan; inst = 0 replaces every occurrence,
 \* inst = i >= 1 only the i-th.  The scan resumes *after* an occurrence.
@@ -138,15 +152,19 @@ SubstScan(x, o, t, inst, p, seen) ==
 \* Occurrences are counted by the left-to-right scan that resumes after each
 \* occurrence (what "replace all" does in Excel and everywhere else), so the
 \* i-th occurrence is well defined for such texts too: SUBSTITUTE("aaaa",
-\* "aa", "X", 2) = "aaX".  Only the empty old text stays unjudged.
+\* "aa", "X", 2) = "aaX".
+\* The empty old text has no occurrence that could be replaced (the scan
+\* would never advance): Excel hands the text back unchanged,
+\* SUBSTITUTE("abc", "", "x") = "abc", with or without an instance number.
 SelfOverlap(o) == \E m \in 1..(Len(o) - 1) :
                      SubSeq(o, 1, m) = SubSeq(o, Len(o) - m + 1, Len(o))
-SubstJudged(o) == o # <<>>
+SubstJudged(o) == o # <<>>       \* o has occurrences: the scan laws apply
 
 SubstituteAll(x, o, t) ==
-  IF SubstJudged(o) THEN T(SubstScan(x, o, t, 0, 1, 0)) ELSE Unjudged
+  IF o = <<>> THEN T(x) ELSE T(SubstScan(x, o, t, 0, 1, 0))
 SubstituteNth(x, o, t, i) ==
-  IF SubstJudged(o) /\ i >= 1 THEN T(SubstScan(x, o, t, i, 1, 0)) ELSE Unjudged
+  IF i < 1 THEN Unjudged
+  ELSE IF o = <<>> THEN T(x) ELSE T(SubstScan(x, o, t, i, 1, 0))
 
 \* TRIM keeps every non-space character, and a space exactly when it directly
 \* follows a non-space character and some non-space character comes later.
@@ -282,7 +300,7 @@ TextOf(k, j, f) ==
       ipad == Zeros(P.z - Len(ip)) \o ip
       fp   == DropTrailingZeros(SubSeq(M, Len(M) - d + 1, Len(M)), P.a)
   IN  IF k < 0 /\ StripZ(M) = <<>> THEN Unjudged   \* "-0.00" or "0.00": not fixed
-      ELSE IF P.g /\ P.z > 3 THEN Unjudged          \* separators inside the zero padding
+      \* grouping covers the zero padding too: TEXT(12, "0,000") = "0,012"
       ELSE T((IF k < 0 THEN <<MINUS>> ELSE <<>>)
              \o (IF P.g THEN Group(ipad) ELSE ipad)
              \o (IF P.dot THEN <<DOT>> ELSE <<>>) \o fp
@@ -363,6 +381,21 @@ RightLaw == Slicing =>
          /\ Len(Right(s, k)[2]) = Min(k, Len(s))
          /\ k <= Len(s) => Right(s, k) = Mid(s, Len(s) - k + 1, k)
 
+\* a fraction on a position or count changes nothing: it is cut off.  In
+\* particular RIGHT(s, 0.5) is empty and LEFT(s, n.f) & MID(s, n.f + 1, ..) is
+\* still s.
+TruncLaw == Slicing =>
+  \A n \in Pos, f \in Tenths :
+    n >= 0 =>
+      LET q == 10 * n + f IN
+      /\ Whole(q) = n
+      /\ LeftQ(s, q) = Left(s, n) /\ RightQ(s, q) = Right(s, n)
+      /\ Len(RightQ(s, q)[2]) = Min(n, Len(s))
+      /\ Amp(LeftQ(s, q), MidQ(s, q + 10, 10 * Len(s))) = T(s)
+      /\ MidQ(s, q, q) = Mid(s, n, n)
+      /\ \A t \in NewTexts : ReplaceQ(s, q, q, t) = Replace(s, n, n, t)
+      /\ FindAllowedQ(<<>>, s, q) = FindAllowed(<<>>, s, n)
+
 \* MID is LEFT of what LEFT leaves over
 MidLaw == Slicing =>
   \A p \in Pos, c \in Pos :
@@ -415,6 +448,12 @@ SubstLaw == Slicing =>
           /\ SubstituteAll(s, o, o) = T(s)
           /\ Len(SubstituteAll(s, o, t)[2]) =
                Len(s) + Cardinality(P) * (Len(t) - Len(o))
+
+\* the empty old text: nothing to replace
+SubstEmptyLaw == Slicing =>
+  \A t \in NewTexts :
+    /\ SubstituteAll(s, <<>>, t) = T(s)
+    /\ \A i \in 1..(Len(s) + 2) : SubstituteNth(s, <<>>, t, i) = T(s)
 
 \* self-overlapping old text: occurrences are those of the resuming scan
 SubstOverlapLaw == Slicing =>
@@ -538,6 +577,9 @@ ExportSlicing ==
    src     |-> src,
    s       |-> s,
    pos     |-> <<PosLo, PosLo + NPos - 1>>,
+   \* every result below for a position or count n >= 0 is also the result
+   \* for n + f/10, f in tenths (LeftQ, RightQ, MidQ, ReplaceQ, FindAllowedQ)
+   tenths  |-> Tenths,
    len     |-> LenF(s)[2],
    left    |-> [i \in 1..NPos |-> EncT(Left(s, PosAt(i)))],
    right   |-> [i \in 1..NPos |-> EncT(Right(s, PosAt(i)))],
